@@ -156,11 +156,18 @@ pub const RULE: &str = "states = every position of the bounded trees, en-passant
 pub fn run(tier: Tier) -> i32 {
     let mut plan = standard_plan(tier, 4);
     if tier == Tier::Quick {
-        // FEN text depends on rights, side and en-passant state, not on 3-man geometry: keep the
-        // pawn sets without children and drop the other 3-man sets from the quick tier
+        // FEN text depends on rights, side and en-passant state, not on geometry: the quick tier keeps
+        // the pawn sets, the en-passant, castling and promotion families as positions (the members
+        // themselves carry every rights set, side and en-passant state) and explores children only
+        // where a move creates such state (pre-push en-passant family: the push; small castling sets)
         plan.families.retain(|(f, _)| !f.name().starts_with("all placements of") || f.name().contains('P'));
         for (f, cd) in plan.families.iter_mut() {
-            if f.name().starts_with("all placements of") || f.name().starts_with("castling family (1") {
+            let n = f.name();
+            if n.contains("before the double push") {
+                *cd = 1;
+            } else if n.starts_with("castling family (0") {
+                // keep
+            } else {
                 *cd = 0;
             }
         }
